@@ -43,11 +43,11 @@ type cCatalog struct {
 	tables map[string]*cTable
 	views  map[string]string // name -> table selected from
 	trigs  map[string]*cTrig
-	procs  map[string]bool
+	procs  map[string]string // name -> "is_deterministic|sql_data_access|security_type"
 }
 
 func (c *cCatalog) clone() *cCatalog {
-	n := &cCatalog{tables: map[string]*cTable{}, views: map[string]string{}, trigs: map[string]*cTrig{}, procs: map[string]bool{}}
+	n := &cCatalog{tables: map[string]*cTable{}, views: map[string]string{}, trigs: map[string]*cTrig{}, procs: map[string]string{}}
 	for k, t := range c.tables {
 		nt := &cTable{rows: t.rows, cols: append([]string(nil), t.cols...), idx: map[string]*cIdx{}, fks: map[string]*cFK{}, checks: map[string]bool{}}
 		for a, b := range t.idx {
@@ -70,8 +70,8 @@ func (c *cCatalog) clone() *cCatalog {
 		x := *v
 		n.trigs[k] = &x
 	}
-	for k := range c.procs {
-		n.procs[k] = true
+	for k, v := range c.procs {
+		n.procs[k] = v
 	}
 	return n
 }
@@ -168,9 +168,10 @@ func (c *cCatalog) probes() []cProbe {
 	add("is.triggers", "SELECT trigger_name, CONCAT(event_manipulation, ''), event_object_table, CONCAT(action_timing, '') FROM information_schema.triggers WHERE trigger_schema = 'd'", trigs, false)
 	add("show triggers", "SHOW TRIGGERS", showTrigs, false)
 	for _, p := range sortedKeys(c.procs) {
-		routines = append(routines, fmt.Sprintf("(%s,'PROCEDURE')", qs(p)))
+		ch := strings.Split(c.procs[p], "|")
+		routines = append(routines, fmt.Sprintf("(%s,'PROCEDURE',%s,%s,%s)", qs(p), qs(ch[0]), qs(ch[1]), qs(ch[2])))
 	}
-	add("is.routines", "SELECT routine_name, CONCAT(routine_type, '') FROM information_schema.routines WHERE routine_schema = 'd'", routines, false)
+	add("is.routines", "SELECT routine_name, CONCAT(routine_type, ''), CONCAT(is_deterministic, ''), CONCAT(sql_data_access, ''), CONCAT(security_type, '') FROM information_schema.routines WHERE routine_schema = 'd'", routines, false)
 	return ps
 }
 
@@ -231,7 +232,7 @@ func checkC43(env *kernel.Env) {
 		return &Sess{W: w, ID: w.nextID, S: ms, Name: fmt.Sprintf("s%d", w.nextID)}
 	}
 	sessions := []*Sess{rootSess(), rootSess()}
-	cat := &cCatalog{tables: map[string]*cTable{}, views: map[string]string{}, trigs: map[string]*cTrig{}, procs: map[string]bool{}}
+	cat := &cCatalog{tables: map[string]*cTable{}, views: map[string]string{}, trigs: map[string]*cTrig{}, procs: map[string]string{}}
 	n := 0
 	fresh := func(prefix string) string { n++; return fmt.Sprintf("%s%d", prefix, n) }
 	pickKey := func(keys []string) string { return keys[T.Draw(len(keys))] }
@@ -543,11 +544,23 @@ func checkC43(env *kernel.Env) {
 				if len(cat.procs) > 0 && T.Bool(1, 8) {
 					pn = pickKey(sortedKeys(cat.procs))
 				}
-				return &op{"create-procedure", fmt.Sprintf("CREATE PROCEDURE %s() SELECT 1", pn), func(c *cCatalog) bool {
-					if c.procs[pn] {
+				// characteristics (each optional; the defaults are NO / CONTAINS SQL / DEFINER)
+				det, access, security, chars := "NO", "CONTAINS SQL", "DEFINER", ""
+				if T.Bool(1, 3) {
+					det, chars = "YES", chars+" DETERMINISTIC"
+				}
+				if T.Bool(1, 3) {
+					access = []string{"NO SQL", "READS SQL DATA", "MODIFIES SQL DATA"}[T.Draw(3)]
+					chars += " " + access
+				}
+				if T.Bool(1, 3) {
+					security, chars = "INVOKER", chars+" SQL SECURITY INVOKER"
+				}
+				return &op{"create-procedure", fmt.Sprintf("CREATE PROCEDURE %s()%s SELECT 1", pn, chars), func(c *cCatalog) bool {
+					if _, ok := c.procs[pn]; ok {
 						return false
 					}
-					c.procs[pn] = true
+					c.procs[pn] = det + "|" + access + "|" + security
 					return true
 				}}
 			case 16: // DROP PROCEDURE
